@@ -164,11 +164,21 @@ def funcap(tier, rng, cicada):
                  {"gen": "p", "t": body, "seq": seq, "k": ("fcap", w), "heads": g.cond})
         c.id = "f%d" % i
         cases.append(c)
+    # the same substitution MANY times in one session (every call of a session is the first call's equal: the observation of a
+    # repeated case is that of one call if all calls agree, and names the first call that differs otherwise)
+    for j, rep in enumerate([70, 130] if tier == "quick" else [70, 130, 300, 65, 64]):
+        new = "stage 1 0 p"
+        c = Case("fcap", [gens.env_field(exported={"HOME": "/h"}), hx(new + "\n"), ",".join(hx(x) for x in ["cicada", "s.sh"]), hx(new) + ":0", "[]",
+                          "c " + hx(new)], {"gen": "p", "t": new + "\n", "seq": {new: [0]}, "k": ("fcap-rep", rep), "heads": 0, "rep": rep})
+        c.id = "r%d" % j
+        cases.append(c)
     sb = proc.Sandbox("c11f")
 
     def one(c):
         d = os.path.join(sb.dir, c.id)
         os.makedirs(d)
+        if c.meta.get("rep"):
+            return c.id, one_repeated(c, d)
         for k, v in c.meta["seq"].items():
             if k.startswith("cond "):
                 open(os.path.join(d, k.split()[1] + ".seq"), "w").write(" ".join(str(x) for x in v))
@@ -197,6 +207,31 @@ def funcap(tier, rng, cicada):
                 k = int(lines[0])                     # the record holds argv[0] too
                 got = lines[2] if k == 2 else "ARGC=%d" % (k - 1)
         return c.id, (",".join(out) or "[]") + "#" + got
+
+    def one_repeated(c, d):
+        n_ = c.meta["rep"]
+        open(os.path.join(d, "s.sh"), "w").write("function f() {\n" + c.meta["t"] + "}\n" + 'argv "$(f)"\n' * n_)
+        log, alog = os.path.join(d, "trace.log"), os.path.join(d, "argv.log")
+        try:
+            subprocess.run([cicada, os.path.join(d, "s.sh")], cwd=d, env=sb.env({"STAGE_LOG": log, "COND_DIR": d, "ARGV_LOG": alog}),
+                           stdin=subprocess.DEVNULL, stdout=subprocess.PIPE, stderr=subprocess.PIPE, timeout=120)
+        except subprocess.TimeoutExpired:
+            return "HANG"
+        tr = [x for x in (open(log).read().split("\n") if os.path.exists(log) else []) if x]
+        recs, lines, i = [], (open(alog).read().split("\n") if os.path.exists(alog) else []), 0
+        while i < len(lines) and lines[i]:
+            k = int(lines[i])
+            recs.append(lines[i + 2] if k == 2 else "ARGC=%d" % (k - 1))
+            i += k + 2
+        for k in range(n_):
+            got = recs[k] if k < len(recs) else "NOT-RUN"
+            ran = tr[k] if k < len(tr) else "NOT-RUN"
+            if got != recs[0] or ran != tr[0]:
+                return "call %d of %d differs from the first: argument %s (first %s), command %s (first %s)" % (k + 1, n_, got, recs[0], ran, tr[0])
+        if len(recs) != n_ or len(tr) != n_:
+            return "%d calls: %d argv records, %d commands run" % (n_, len(recs), len(tr))
+        name, st = tr[0].rsplit(":", 1)
+        return "%s:%s:#%s" % (hx("stage %s %s p" % (name, st)), st, recs[0])
 
     impl = dict(proc.pmap(one, cases))
     sb.cleanup()
